@@ -140,6 +140,17 @@ def run_bodies(prop, tier, seed):
         chk.machine_family("data-dependent-bodies-%d" % (i // 5000), dd[i:i + 5000], props=("CleanAfterEnd", "BarriersOK"), features=features, opts_list=MODES)
     if prop == "C05":
         chk.machine_family("heads-with-cuts", head_cut_scenarios(), props=("CleanAfterEnd", "BarriersOK"), features=features)
+        SG = gen.scale_groups()
+        chk.machine_family("scale-many-clauses-with-cuts", SG["manyclauses-cut"], {"budget_extra": 20000000}, props=("CleanAfterEnd", "BarriersOK"), features=features, max_steps=8000)
+        chk.machine_family("scale-many-cuts-then-evaluate_bounded", SG["cuts-then-bounded"], {"budget_extra": 20000000}, props=("CleanAfterEnd", "BarriersOK"), features=features, max_steps=30000)
+    if prop == "C06":
+        rs = gen.reentered_scenarios(rnd, 700 if tier == "quick" else None)
+        chk.machine_family("constructs-re-entered-per-answer", rs, props=("CleanAfterEnd", "BarriersOK"), features=features, opts_list=MODES)
+        mc = gen.many_construct_scenarios()
+        if tier == "quick":
+            rnd.shuffle(mc)
+            mc = mc[:80]
+        chk.machine_family("twenty-and-more-constructs-in-one-predicate", mc, props=("CleanAfterEnd", "BarriersOK"), features=features, max_steps=4000)
     sh = identity_shapes(rnd, 1200 if tier == "quick" else 12000)
     if prop == "C05":
         sh = [s for s in sh if "cut" in bodies.kinds(s["scripts"]["P"]["t/3"][0]["body"])]
